@@ -1,5 +1,6 @@
 import Andes.Model.Store
 import Mathlib.Data.List.Basic
+import Mathlib.Data.List.Induction
 import Mathlib.Tactic.Linarith
 /-! Lemmas about the storage model (`Andes/Model/Store.lean`). -/
 set_option linter.unusedSectionVars false
@@ -485,4 +486,112 @@ theorem steps_mem_noLimit (c : Cfg) (hl : c.limitStore = false) (rows : List (τ
 end inv
 
 end machine
+
+
+/-! ### output selection -/
+section selection
+
+theorem insU_mem (x : Nat) (l : List Nat) (y : Nat) : y ∈ insU x l ↔ y = x ∨ y ∈ l := by
+  induction l with
+  | nil => simp [insU]
+  | cons z zs ih =>
+    unfold insU
+    split
+    · simp
+    · split
+      · rename_i h1 h2; subst h2; simp
+      · simp [ih]; tauto
+
+theorem insU_sorted (x : Nat) (l : List Nat) (h : l.Pairwise (· < ·)) : (insU x l).Pairwise (· < ·) := by
+  induction l with
+  | nil => simp [insU]
+  | cons z zs ih =>
+    unfold insU
+    have hz := List.pairwise_cons.mp h
+    split
+    · rename_i hxz
+      refine List.pairwise_cons.mpr ⟨?_, h⟩
+      intro a ha
+      rcases List.mem_cons.mp ha with rfl | ha
+      · exact hxz
+      · exact Nat.lt_trans hxz (hz.1 a ha)
+    · split
+      · exact h
+      · rename_i h1 h2
+        refine List.pairwise_cons.mpr ⟨?_, ih hz.2⟩
+        intro a ha
+        rcases (insU_mem x zs a).mp ha with rfl | ha
+        · omega
+        · exact hz.1 a ha
+
+theorem sortU_sorted (l : List Nat) : (sortU l).Pairwise (· < ·) := by
+  induction l with
+  | nil => simp [sortU]
+  | cons x xs ih => exact insU_sorted x _ ih
+
+theorem sortU_mem (l : List Nat) (y : Nat) : y ∈ sortU l ↔ y ∈ l := by
+  induction l with
+  | nil => simp [sortU]
+  | cons x xs ih =>
+    have : sortU (x :: xs) = insU x (sortU xs) := rfl
+    rw [this, insU_mem, ih]; simp
+
+/-- two strictly increasing lists with the same members are equal -/
+theorem sorted_ext : ∀ (a b : List Nat), a.Pairwise (· < ·) → b.Pairwise (· < ·) → (∀ x, x ∈ a ↔ x ∈ b) → a = b
+  | [], [], _, _, _ => rfl
+  | [], y :: ys, _, _, h => by have := (h y).mpr (by simp); simp at this
+  | x :: xs, [], _, _, h => by have := (h x).mp (by simp); simp at this
+  | x :: xs, y :: ys, ha, hb, h => by
+    have hax := List.pairwise_cons.mp ha
+    have hby := List.pairwise_cons.mp hb
+    have hxy : x = y := by
+      have h1 : x ∈ y :: ys := (h x).mp (by simp)
+      have h2 : y ∈ x :: xs := (h y).mpr (by simp)
+      rcases List.mem_cons.mp h1 with h1 | h1
+      · exact h1
+      · rcases List.mem_cons.mp h2 with h2 | h2
+        · exact h2.symm
+        · have := hby.1 x h1; have := hax.1 y h2; omega
+    subst hxy
+    congr 1
+    apply sorted_ext xs ys hax.2 hby.2
+    intro z
+    constructor
+    · intro hz
+      have : z ∈ x :: ys := (h z).mp (List.mem_cons_of_mem _ hz)
+      rcases List.mem_cons.mp this with rfl | h'
+      · have := hax.1 z hz; omega
+      · exact h'
+    · intro hz
+      have : z ∈ x :: xs := (h z).mpr (List.mem_cons_of_mem _ hz)
+      rcases List.mem_cons.mp this with rfl | h'
+      · have := hby.1 z hz; omega
+      · exact h'
+
+theorem range_filter_map_getD (idx : List Nat) (p : Nat → Bool) :
+    ((List.range idx.length).filter (fun j => p (idx.getD j 0))).map (fun j => idx.getD j 0) = idx.filter p := by
+  induction idx using List.reverseRecOn with
+  | nil => simp
+  | append_singleton l a ih =>
+    simp only [List.length_append, List.length_singleton, List.range_succ, List.filter_append, List.map_append]
+    have h1 : (List.range l.length).filter (fun j => p ((l ++ [a]).getD j 0)) =
+        (List.range l.length).filter (fun j => p (l.getD j 0)) := by
+      apply List.filter_congr
+      intro j hj
+      have : j < l.length := List.mem_range.mp hj
+      simp [List.getD_eq_getElem?_getD, List.getElem?_append_left this]
+    have h2 : ∀ j ∈ (List.range l.length).filter (fun j => p (l.getD j 0)),
+        (l ++ [a]).getD j 0 = l.getD j 0 := by
+      intro j hj
+      have : j < l.length := List.mem_range.mp (List.mem_filter.mp hj).1
+      simp [List.getD_eq_getElem?_getD, List.getElem?_append_left this]
+    rw [h1, List.map_congr_left h2, ih]
+    congr 1
+    have h3 : (l ++ [a]).getD l.length 0 = a := by simp [List.getD_eq_getElem?_getD]
+    by_cases hp : p a = true
+    · simp [List.filter_cons, h3, hp]
+    · have hp' : p a = false := by simpa using hp
+      simp [List.filter_cons, h3, hp']
+
+end selection
 end Andes.Store
